@@ -132,7 +132,16 @@ static void seq_op(vh_rng* r, struct cont* W, int i, char* opd, size_t cap) {
   if (roll < 3) {
     /* an element the container's element type refuses (its assignment raises): the operation fails, and the sequence
        holds exactly the elements it held -- no half-made member is left to be counted, found or finalised later */
-    int how = (int)vh_below(r, 3);
+    int how = (int)vh_below(r, 4);
+    if (how == 3) {
+      /* a perfectly good element offered one position past the end: refused, no element comes to life */
+      snprintf(opd, cap, "%s#%d.set(len, element) refused", CKNAME[k->kind], i);
+      var exc3 = NULL;
+      VH_CATCH(set(k->c, $I(k->n), VALOBJ(v)), exc3);
+      if (exc3 == NULL) { vh_violation("C05:refused:set-one-past-the-end-accepted", "%s of %d elements accepted set at index %d", CKNAME[k->kind], k->n, k->n); }
+      vh_count("refused_element_operations");
+      return;
+    }
     /* (a List's push allocates a node before the assignment and does not give it back when the assignment raises:
        raw memory that is no element's, lost on the tree as given -- not what C05 is about, so LeakSanitizer is told
        to disregard what is allocated inside the refused push) */
